@@ -1868,7 +1868,14 @@ class CParser:
             tok = self._advance()
             result = self._try_parse_paren_type_name()
             if result is not None:
-                typ, _, _ = result
+                typ, _, lparen_tok = result
+                if self._peek_type() == "LBRACE":
+                    # sizeof (type){...}: the operand is a compound literal
+                    # (a unary expression), not the parenthesized type name.
+                    expr = self._parse_postfix_expression(
+                        paren_type=typ, paren_coord=self._tok_coord(lparen_tok)
+                    )
+                    return c_ast.UnaryOp(tok.value, expr, self._tok_coord(tok))
                 return c_ast.UnaryOp(tok.value, typ, self._tok_coord(tok))
             expr = self._parse_unary_expression()
             return c_ast.UnaryOp(tok.value, expr, self._tok_coord(tok))
